@@ -358,6 +358,9 @@ func (k *kernel) translate() (text string, rep report) {
 			}
 		}
 		if f, ok := s.(*ast.ForStmt); ok {
+			if _, _, _, _, down := downHeader(f); down {
+				continue // a count-down loop over an int range before the time loop
+			}
 			if _, _, hi, incl, ok := rangeHeader(f); ok && !incl {
 				isLen := false
 				if id, ok := hi.(*ast.Ident); ok && lenNames[id.Name] {
@@ -382,6 +385,17 @@ func (k *kernel) translate() (text string, rep report) {
 		k.fail(fn, "no loop over the series")
 	}
 	postStmts := body[loopAt+1:] // statements after the loop: the definition `final`
+	k.postNames = map[string]bool{}
+	for _, s := range postStmts {
+		for n := range identsOf(s) {
+			k.postNames[n] = true
+		}
+	}
+	if ret != nil {
+		for n := range identsOf(ret) {
+			k.postNames[n] = true
+		}
+	}
 	k.hasLoop = true
 	// pre-loop statements; the state variables may be declared there, so they are resolved afterwards
 	var guardRets []*ast.ReturnStmt
@@ -398,8 +412,14 @@ func (k *kernel) translate() (text string, rep report) {
 		switch s := s.(type) {
 		case *ast.DeclStmt:
 			k.localDecl(k.preInd, s)
-		case *ast.ForStmt:
+		case *ast.ForStmt, *ast.RangeStmt:
 			k.stmts([]ast.Stmt{s}, k.preInd, func(int) {})
+		case *ast.ExprStmt:
+			if call, ok := s.X.(*ast.CallExpr); ok && (k.isCopyCall(call) || k.writingCallee(call) != nil) { // copy(dst[a:b], src[c:d]), f(slice, …)
+				k.stmts([]ast.Stmt{s}, k.preInd, func(int) {})
+				continue
+			}
+			k.fail(s, "statement %T before the loop", s)
 		case *ast.IfStmt:
 			if s.Init != nil {
 				k.fail(s, "if with an init statement")
